@@ -11,6 +11,7 @@ import RedisVerif.Props.C05
     C EXEC <slots> (<m> <cmd>{m}){slots}      EXEC with the other clients' commands per await slot
     C CMD <cmd>                 → reply       parsed data command
     C UNK | C PERR              → reply       unknown command / `from_resp_zero_copy` error
+    C PROTO                     → reply       bytes `RespCodec::parse` rejects (protocol error)
     C CHAN                      → reply       PUBLISH stub
     C LOCAL <id>                → reply       0 AUTH x, 1 ACL WHOAMI, 2 RESET, 3 CLIENT SETNAME a
     F <cmd>                     → reply       a command of another client, between two inputs
@@ -20,6 +21,7 @@ import RedisVerif.Props.C05
     <cmd> ::= GET k | SET k v | INCR k | APPEND k v | DEL k | RPUSH k <n> v* | LRANGE k | LLEN k
             | LSET k v (index 0) | LPOP k | HSET k f v | HDEL k f | SADD k m | SREM k m
             | ZADD k <int> m | ZREM k m | EXPIRE k | PERSIST k <had01> | EVICT k
+            | MSET <n> (k v){n} | MGET <n> k{n} | DELM <n> k{n}
             | PING | UNWATCH | UNK | LOCAL <id>
 -/
 namespace RedisVerif.Driver.C05
@@ -61,6 +63,12 @@ def cmdP : P KV.Cmd := do
   | "EXPIRE" => do let k ← strKey; pure (.expire k)
   | "PERSIST" => do let k ← strKey; let h ← nat; pure (.persist k (h != 0))
   | "EVICT" => do let k ← strKey; pure (.evict k)
+  | "MSET" => do
+    let n ← nat
+    let ps ← repeatP n (do let k ← strKey; let v ← bytesTok; pure (k, v))
+    pure (.mset ps)
+  | "MGET" => do let n ← nat; let ks ← repeatP n strKey; pure (.mget ks)
+  | "DELM" => do let n ← nat; let ks ← repeatP n strKey; pure (.delm ks)
   | "PING" => pure .ping
   | "UNWATCH" => pure .unwatch
   | "UNK" => pure .unknown
@@ -86,6 +94,7 @@ def inputP : P (Input Nat KV.Cmd × List (List KV.Cmd)) := do
   | "CMD" => do let c ← cmdP; pure (.cmd c, [])
   | "UNK" => pure (.unknown .unknown, [])
   | "PERR" => pure (.parseErr, [])
+  | "PROTO" => pure (.protoErr, [])
   | "CHAN" => pure (.chanStub (.loc .publish), [])
   | "LOCAL" => do
     let n ← nat
@@ -113,6 +122,9 @@ def showRep : KV.Rep → String
   | .bulk none => "$-"
   | .bulk (some b) => "$" ++ hexOfBytes b
   | .arr l => " ".intercalate (s!"*{l.length}" :: l.map (fun b => "$" ++ hexOfBytes b))
+  | .marr l => " ".intercalate (s!"*{l.length}" :: l.map (fun
+      | some b => "$" ++ hexOfBytes b
+      | none => "$-"))
   | .err .wrongType => "-wrongtype"
   | .err .notInt => "-notint"
   | .err .overflow => "-overflow"
@@ -129,6 +141,7 @@ def showConnErr : ConnErr → String
   | .unknownInMulti => "-unknown-args"
   | .noperm => "-noperm"
   | .parse => "-parse"
+  | .protocol => "-protocol"
 
 def showReply : Reply KV.Rep → String
   | .ok => "+OK"
